@@ -128,6 +128,47 @@ fn mk_assembler(libs: &[MaslLibrary], order: &[usize], debug: bool) -> Result<As
     Ok(a)
 }
 
+/// library used by the kernel scenarios: `klib::ok` is free of non-inlined invocations, `klib::bad`
+/// has procedures that `call` / `procref` (directly, or through an `exec` chain)
+const KLIB_OK: &str = "export.twice\n    dup add\nend\n\nexport.bump\n    exec.twice add.1\nend\n";
+const KLIB_BAD: &str = "export.leaf\n    push.1 drop\nend\n\nexport.calls\n    call.leaf\nend\n\nexport.refs\n    procref.leaf dropw\nend\n\nexport.chain\n    exec.calls\nend\n";
+const KLIB_BAD2: &str = "use.klib::bad\n\nexport.far\n    exec.bad::chain\nend\n";
+
+/// (class, kernel source) of kernels that must be refused: call / syscall / procref where forbidden,
+/// written in the kernel module itself or reached through procedures it inlines from a library
+pub const KERNEL_MUST_FAIL: &[(&str, &str)] = &[
+    ("call-in-kernel", "proc.h push.1 drop end\nexport.k0 call.h end"),
+    ("call-in-kernel-second-proc", "proc.h push.1 drop end\nexport.k0 push.2 drop end\nexport.k1 push.3 drop call.h end"),
+    ("procref-in-kernel", "proc.h push.1 drop end\nexport.k0 procref.h dropw end"),
+    ("syscall-in-kernel", "export.k0 push.1 drop end\nexport.k1 syscall.k0 end"),
+    ("call-in-kernel-internal-proc", "proc.h push.1 drop end\nproc.g call.h end\nexport.k0 exec.g end"),
+    ("call-in-library-proc-inlined-into-kernel", "use.klib::bad\nexport.k0 exec.bad::calls end"),
+    ("procref-in-library-proc-inlined-into-kernel", "use.klib::bad\nexport.k0 exec.bad::refs end"),
+    ("call-in-library-chain-inlined-into-kernel", "use.klib::bad\nexport.k0 exec.bad::chain end"),
+    ("call-in-second-library-chain-inlined-into-kernel", "use.klib::far\nexport.k0 push.1 drop end\nexport.k1 exec.far::far end"),
+    ("call-to-library-proc-in-kernel", "use.klib::ok\nexport.k0 call.ok::twice end"),
+    ("undefined-proc-in-kernel", "export.k0 exec.nope end"),
+];
+
+/// kernels that must be accepted, with a program that uses them
+pub const KERNEL_MUST_PASS: &[(&str, &str, &str)] = &[
+    ("plain", "export.k0 push.1 drop end\nexport.k1 padw caller dropw dropw end", "begin syscall.k0 syscall.k1 end"),
+    ("inlines-call-free-library", "use.klib::ok\nexport.k0 exec.ok::bump drop push.0 end\nexport.k1 exec.ok::twice end", "begin push.3 syscall.k1 syscall.k0 drop end"),
+    ("internal-exec-chain", "proc.h push.1 drop end\nproc.g exec.h exec.h end\nexport.k0 exec.g end", "proc.u syscall.k0 end\nbegin call.u exec.u end"),
+];
+
+fn klib_json() -> Value {
+    json!({"namespace": "klib", "version": [0, 1, 0], "deps": [], "modules": [
+        {"path": "klib::ok", "source": KLIB_OK}, {"path": "klib::bad", "source": KLIB_BAD}, {"path": "klib::far", "source": KLIB_BAD2}]})
+}
+
+fn with_kernel(a: Assembler, src: &str) -> Result<Assembler, String> {
+    match catch(|| a.with_kernel(src).map_err(|e| format!("{e}"))) {
+        Ok(r) => r,
+        Err((l, m)) => Err(format!("PANIC {l}: {m}")),
+    }
+}
+
 /// Ok(program) / Err(message) / Err("PANIC ...")
 fn compile(a: &Assembler, src: &str) -> Result<Program, String> {
     match catch(|| a.compile(src).map_err(|e| format!("{e}"))) {
@@ -211,7 +252,7 @@ impl Prop for C11 {
         }
     }
     fn rule(&self) -> &'static str {
-        "one run = one long-lived assembler (seeded library add order, debug mode on/off, optionally a library containing a module that cannot compile) receiving a history of 6-40 compile requests: valid programs over generated libraries (exec/call/procref+dyn of exported, re-exported and local procedures), boundary-parameter programs that must be accepted, and aborting requests that must be refused (undefined procedures, parameters one beyond their range, local indices, forbidden call/syscall/caller, export in an executable, zero divisors, malformed structure). Reference model: a fresh assembler with the libraries in canonical order compiling the same source once; a second long-lived assembler with the reverse library order. Oracle: same verdict and same program (MAST root, kernel, reachable call targets), never a panic, must-fail refused, must-pass accepted, every call target reachable in a compiled program present in its code block table, and no CodeBlockNotFound at run time. One evaluation = one request; non-trivial = at least one valid and one aborting request were compared; distinct = digest of the history."
+        "one run = one long-lived assembler (seeded library add order, debug mode on/off, optionally a library containing a module that cannot compile) receiving a history of 6-40 compile requests: valid programs over generated libraries (exec/call/procref+dyn of exported, re-exported and local procedures), boundary-parameter programs that must be accepted, and aborting requests that must be refused (undefined procedures, parameters one beyond their range, local indices, forbidden call/syscall/caller, export in an executable, zero divisors, malformed structure); in 40 % of the runs a kernel episode first: kernels that must be refused (call / procref / syscall written in the kernel module or reached through library procedures the kernel inlines) and a kernel that must be accepted, whose users join the history. Reference model: a fresh assembler with the libraries in canonical order compiling the same source once; a second long-lived assembler with the reverse library order. Oracle: same verdict and same program (MAST root, kernel, reachable call targets), never a panic, must-fail refused, must-pass accepted, every call target reachable in a compiled program present in its code block table, and no CodeBlockNotFound at run time. One evaluation = one request; non-trivial = at least one valid and one aborting request were compared; distinct = digest of the history."
     }
     fn generate(&self, rng: &mut Rng, _tier: Tier, _index: u64) -> Value {
         let nlibs = rng.range(1, 3) as usize;
@@ -263,7 +304,27 @@ impl Prop for C11 {
             let at = rng.usize(requests.len());
             requests.insert(at, json!({"src": req, "label": "broken-module"}));
         }
-        json!({"libs": libs_json, "order": order, "debug": rng.chance(1, 3), "requests": requests})
+        // kernel episode (40 % of the runs): the assemblers first receive a kernel that must be refused
+        // and/or one that must be accepted; with an accepted kernel the history also has programs using it
+        let mut kernel = Value::Null;
+        if rng.chance(2, 5) {
+            let bad: Vec<Value> = (0..rng.range(0, 2)).map(|_| { let (c, k) = *rng.pick(KERNEL_MUST_FAIL); json!({"class": c, "src": k}) }).collect();
+            let good = if rng.chance(2, 3) {
+                let (c, k, p) = *rng.pick(KERNEL_MUST_PASS);
+                for _ in 0..rng.range(1, 3) {
+                    let at = rng.usize(requests.len() + 1);
+                    requests.insert(at, json!({"src": p, "label": format!("must-pass:kernel-user-{}", c)}));
+                }
+                json!({"class": c, "src": k})
+            } else {
+                Value::Null
+            };
+            kernel = json!({"bad": bad, "good": good});
+            libs_json.as_array_mut().unwrap().push(klib_json());
+            let at = rng.usize(order.len() + 1);
+            order.insert(at, libs_json.as_array().unwrap().len() - 1);
+        }
+        json!({"libs": libs_json, "order": order, "debug": rng.chance(1, 3), "requests": requests, "kernel": kernel})
     }
 
     fn execute(&self, sc: &Value) -> RunOut {
@@ -300,15 +361,61 @@ impl Prop for C11 {
                 return out;
             }
         };
-        let a_rev = mk_assembler(&libs, &reversed, debug).ok();
         let mut obs = Fnv::new();
+        // kernel episode
+        let good_kernel: Option<String> = sc["kernel"]["good"]["src"].as_str().map(|x| x.to_string());
+        for b in sc["kernel"]["bad"].as_array().cloned().unwrap_or_default() {
+            let (class, ksrc) = (b["class"].as_str().unwrap_or("").to_string(), b["src"].as_str().unwrap_or("").to_string());
+            out.evals += 1;
+            out.count(&format!("fault:aborting-request|kernel-{}", class.split('-').next().unwrap_or("")));
+            for ord in [&canonical, &order] {
+                let r = mk_assembler(&libs, ord, debug).and_then(|x| with_kernel(x, &ksrc));
+                obs.u64(r.is_ok() as u64);
+                match r {
+                    Ok(_) => out.violate(format!("C11/invalid-accepted/kernel-{}", class), format!("a kernel that must be refused was accepted:\n{ksrc}")),
+                    Err(e) => {
+                        if let Some(rest) = e.strip_prefix("PANIC ") {
+                            let loc = rest.split(':').take(2).collect::<Vec<_>>().join(":");
+                            out.violate(format!("C11/panic/{}", loc), format!("with_kernel panicked: {e}\nkernel:\n{ksrc}"));
+                        }
+                    }
+                }
+            }
+        }
+        let mk = |ord: &[usize]| -> Result<Assembler, String> {
+            let x = mk_assembler(&libs, ord, debug)?;
+            match &good_kernel {
+                Some(k) => with_kernel(x, k),
+                None => Ok(x),
+            }
+        };
+        let a = match &good_kernel {
+            Some(k) => match with_kernel(a, k) {
+                Ok(a) => {
+                    out.count("probe:kernel-accepted");
+                    a
+                }
+                Err(e) => {
+                    let class = sc["kernel"]["good"]["class"].as_str().unwrap_or("");
+                    if let Some(rest) = e.strip_prefix("PANIC ") {
+                        let loc = rest.split(':').take(2).collect::<Vec<_>>().join(":");
+                        out.violate(format!("C11/panic/{}", loc), format!("with_kernel panicked: {e}\nkernel:\n{k}"));
+                    } else {
+                        out.violate(format!("C11/valid-refused/kernel-{}", class), format!("a valid kernel was refused: {e}\n{k}"));
+                    }
+                    return out;
+                }
+            },
+            None => a,
+        };
+        let a_rev = mk(&reversed).ok();
         let (mut n_valid, mut n_abort) = (0, 0);
         for (ri, r) in sc["requests"].as_array().cloned().unwrap_or_default().iter().enumerate() {
             let src = r["src"].as_str().unwrap_or("");
             let label = r["label"].as_str().unwrap_or("valid");
             out.evals += 1;
             let ra = compile(&a, src);
-            let fresh = mk_assembler(&libs, &canonical, debug);
+            let fresh = mk(&canonical);
             let rf = match &fresh {
                 Ok(f) => compile(f, src),
                 Err(e) => Err(e.clone()),
